@@ -70,9 +70,13 @@ CHECKS={
 NOT_YET={}
 ALL=[f"C{i:02d}" for i in range(1,21)]
 
+FUZZED=["C01","C02","C03","C04","C05","C06","C07","C08","C09","C10","C11","C13","C14","C18","C19","C20"]
+
 def main():
     checks=[]
     for pid,c in CHECKS.items():
+        if pid in FUZZED:
+            c["tech"]+="; the thorough tier adds a coverage-guided stage: libFuzzer (cargo-fuzz, 16 processes, -runs-bounded) mutates the choice stream of the same generator under the same oracle"
         checks.append({
           "property_id":pid,
           "quick_cmd":f"./check {pid} --tier quick",
@@ -87,7 +91,7 @@ def main():
     na=[{"property_id":p,"reason":NOT_YET.get(p,"check not built yet in this round; planned (see DESIGN.md §8 build order)")} for p in ALL if p not in CHECKS]
     m={
       "version":1,
-      "setup_cmd":"cd /verif/harness && CARGO_NET_OFFLINE=true cargo build --release --offline && cd /repo && CARGO_NET_OFFLINE=true CARGO_TARGET_DIR=/verif/target/glasbin cargo build --release --offline -p glas --bin glas",
+      "setup_cmd":"cd /verif/harness && CARGO_NET_OFFLINE=true cargo build --release --offline && cd /repo && CARGO_NET_OFFLINE=true CARGO_TARGET_DIR=/verif/target/glasbin cargo build --release --offline -p glas --bin glas && cd /verif/fuzz && (CARGO_NET_OFFLINE=true cargo fuzz build --fuzz-dir /verif/fuzz -s none --target-dir /verif/target/fuzz stream || true)",
       "hooks":{
         "guard":"cargo feature `verif` on crate glas (crates/glas/Cargo.toml [features] verif = [])",
         "enable":"the harness crate path-depends on /repo/crates/glas with features=[\"verif\"]; ./check rebuilds it from /repo's working tree before every run",
@@ -99,11 +103,12 @@ def main():
         {"name":"inproc","path":"/verif/harness","serves_properties":[p for p,c in CHECKS.items() if c["engine"]=="inproc"],"kind_free_text":"Rust harness linked against syntax/ide/glas(verif); proptest-generated and -shrunk choice streams + exhaustive enumerations; one worker process per shard"},
         {"name":"sandbox","path":"/verif/harness","serves_properties":[p for p,c in CHECKS.items() if c["engine"]=="sandbox"],"kind_free_text":"same harness, cases announced (MARK) so that a worker killed by a signal or stalled is attributed to a case and confirmed alone"},
         {"name":"threads","path":"/verif/harness","serves_properties":[p for p,c in CHECKS.items() if c["engine"]=="threads"],"kind_free_text":"real OS threads around one ide::AnalysisHost with stream-chosen yields/sleeps; in-worker watchdog for liveness"},
+        {"name":"libfuzzer","path":"/verif/fuzz","serves_properties":FUZZED,"kind_free_text":"cargo-fuzz target `stream` (libFuzzer, SanitizerCoverage on syntax/ide/glas, stable toolchain, no sanitizer): second stage of the thorough tier; each input is a choice stream handed to the property's own generator+oracle closure (harness/src/engine/fuzzlink.rs)"},
         {"name":"lsp","path":"/verif/harness","serves_properties":[p for p,c in CHECKS.items() if c["engine"]=="lsp"],"kind_free_text":"black-box JSON-RPC client over stdio against the real glas binary built from /repo"},
       ],
       "checks":checks,
       "not_applicable":na,
-      "notes":"Family: property-based testing and fuzzing. exit 0 = held on everything explored (open known findings are printed as KNOWN-FINDING lines), exit 1 = VIOLATION, exit 2 = inconclusive (build failure, watchdog, harness error). VERIF_SEED/--seed seeds every generated choice; VERIF_TIER is honoured.",
+      "notes":"Family: property-based testing and fuzzing. exit 0 = held on everything explored (open known findings are printed as KNOWN-FINDING lines), exit 1 = VIOLATION, exit 2 = inconclusive (build failure, watchdog, harness error). VERIF_SEED/--seed seeds every generated choice (libFuzzer campaigns of the thorough tier are pinned by -seed/-runs only approximately: the saved replay file is the reproducible unit); VERIF_TIER is honoured. VERIF_FUZZ=1 adds a short coverage-guided stage to a quick run.",
     }
     json.dump(m,open('/verif/MANIFEST.json','w'),indent=1)
     print("wrote MANIFEST.json with",len(checks),"checks")
